@@ -172,6 +172,7 @@ PROPS["C12"]["generated"] = [{"module": "ScpiVerif.Props.C12Gen", "section": "re
 PROPS["C06"]["generated"] = [{"module": "ScpiVerif.Props.C06Gen", "section": "result_c"}]
 PROPS["C01"]["generated"] = PROPS["C01"]["generated"] + [{"module": "ScpiVerif.Props.C01InputGen", "section": "input_c"}]
 PROPS["C08"]["generated"] = [{"module": "ScpiVerif.Props.C01InputGen", "section": "input_c"}]
+PROPS["C09"]["generated"] = [{"module": "ScpiVerif.Props.C09InputGen", "section": "input_c"}]
 
 NOT_CLAIMED = {}
 
@@ -248,8 +249,9 @@ for _k, (_a, _b, _c) in _T.items():
     PROPS[_k]["level_text"], PROPS[_k]["level_note"], PROPS[_k]["technique"] = _a, _b, _c
 # generated ties of parser.c (translate/c2lean_parser.py): mentioned in the level text of the properties they serve
 PROPS["C06"]["level_text"] += " The response framing functions of parser.c (writeData, flushData, writeDelimiter, writeNewLine, writeSemicolon, SCPI_ResultCharacters) are additionally TRANSLATED from the C text on every run (translate/c2lean_parser.py -> Gen/ResultC.lean) and proved to refine the hand model on its non-ghost projection (Props/C06Gen.lean: c_writeDelimiter_cases - ',' iff output_count > 0, ';' and reset iff < 0, nothing iff = 0; c_writeNewLine_cases - line ending and exactly one flush iff first_output is false; c_resultCharacters), so the per-call facts the framing theorem rests on hold of the C text as it is now."
-PROPS["C01"]["level_text"] += " SCPI_Input is additionally TRANSLATED from the C text on every run (translate/c2lean_parser.py -> Gen/InputC.lean, its three library calls as parameters instantiated with the hand model): Props/C01Gen.lean proves that its scan loop equals the hand model's inputLoop with every array access of the generated code in bounds, no wrapping conversion and sufficient fuel (c_input_loop, c_input_loop_wf), and that its overrun path is the hand model's (c_overrun_copies_nothing); the flush path and the copy path are evaluated on concrete contexts (kernel-checked examples), their general refinement proof is not finished."
-PROPS["C08"]["level_text"] += " The scan loop of SCPI_Input that these theorems are about is additionally tied to the C text by translation (Props/C01Gen.lean, c_input_loop: generated loop = inputLoop)."
+PROPS["C01"]["level_text"] += " SCPI_Input is additionally TRANSLATED from the C text on every run (translate/c2lean_parser.py -> Gen/InputC.lean, its three library calls as parameters instantiated with the hand model): Props/C01InputGen.lean proves that the generated function equals the hand model's Ctx.input for every well-formed context whose buffer length fits an int and every chunk whose length fits an int - zero-length (flush) and over-long chunks included - with every array access, memcpy and memmove of the generated code in bounds, no signed overflow, no wrapping conversion and sufficient fuel (c_input_refines; pieces: c_input_loop, c_overrun_copies_nothing), hence position < length after every call and along every history of calls (c_input_wf, c_inputs_wf)."
+PROPS["C08"]["level_text"] += " SCPI_Input, which these theorems are about, is additionally tied to the C text by translation (Props/C01InputGen.lean, c_input_refines: generated SCPI_Input = Ctx.input for every chunk; c_flush_executes_pending: the zero-length call of the generated function hands exactly the pending bytes to SCPI_Parse and empties the buffer; c_inputs_refine: a sequence of calls is the hand model's fold)."
+PROPS["C09"]["level_text"] += " Generated tie (Props/C09InputGen.lean): for the Lean text translated from SCPI_Input of parser.c on every run (library calls instantiated with the hand model) c_input_noninterference / c_stream_noninterference state the same for one call and for any stream of chunks, through c_input_refines (Props/C01InputGen.lean)."
 
 # properties whose theorem module is not complete yet are not claimed
 for _k in ():  # unclaimed
